@@ -306,10 +306,13 @@ class AsyncSrc:
         finally:
             st.active -= 1
 
-    async def aclose(self) -> None:
+    async def aclose(self) -> Any:
         self.st.closed += 1
         if self.st.log:
             CTX.ev("close", self.st.sid)
+        # what a hand-written ``aclose`` returns is nobody's business: a library that relays it (for instance out
+        # of an ``__aexit__``) would turn this truthy value into "exception handled"
+        return "closed-by-this-call"
 
 
 class AsyncSrcBare:
